@@ -201,6 +201,9 @@ var c04Pairs = [][3]string{
 	{"X-A", "1", "10"},
 	{"X-A", "1", "1 " + "2"},
 	{"Accept-Charset", "utf-8", "iso-8859-1"},
+	{"X-Api-Key", "alice", "bob"},
+	{"Dnt", "1", "0"},
+	{"Sec-Ch-Ua-Mobile", "?0", "?1"},
 	// obs-text (bytes >= 0x80 that are not UTF-8) is legal in field values; an index format that cannot hold such bytes must not merge them
 	{"X-A", "Ren\xe9e", "Ren\xe8e"},
 	{"X-A", "Ren\xe9e", "Ren\ufffde"},
@@ -217,7 +220,7 @@ func runC04Pairs(x *mc.X) {
 	p := c04Pairs[pi]
 	x.Trace[len(x.Trace)-1].Desc = fmt.Sprintf("%s: %q vs %q", p[0], p[1], p[2])
 	dir := x.Choose("direction", 2)
-	vary := mc.Pick(x, "vary-spelling", []string{"canonical", "lower", "with-other-field"})
+	vary := mc.Pick(x, "vary-spelling", []string{"canonical", "lower", "with-other-field", "upper", "interior capitals"})
 	a, b := p[1], p[2]
 	if dir == 1 {
 		a, b = b, a
@@ -228,6 +231,18 @@ func runC04Pairs(x *mc.X) {
 		v = strings.ToLower(v)
 	case "with-other-field":
 		v = "X-Other, " + v
+	case "upper":
+		v = strings.ToUpper(v)
+	case "interior capitals": // X-API-Key, DNT, Sec-CH-UA-Mobile, Accept-LANguage: field names are case-insensitive
+		parts := strings.Split(v, "-")
+		for i, p := range parts {
+			if len(p) <= 3 {
+				parts[i] = strings.ToUpper(p)
+			} else {
+				parts[i] = strings.ToUpper(p[:3]) + p[3:]
+			}
+		}
+		v = strings.Join(parts, "-")
 	}
 	w := world.New(world.Opt{})
 	defer w.Close()
